@@ -76,6 +76,12 @@ CONTRACTS = [
 ]
 
 
+# a CryptContext never lets a configuration pin a salt (contract shared with C10)
+from contracts.c10 import CONTRACTS as _C10  # noqa: E402
+
+CONTRACTS += [c for c in _C10 if c.id.startswith("_CryptConfig._norm_scheme_option")]
+
+
 def _bijection():
     v, w, L, M, d, q = z3.Ints("v w L M d q")
     pre = [L >= 2, M >= 1]
